@@ -181,3 +181,19 @@ Definition copy_into {A} (dst : list A) (a b : N) (src : list A) : outcome (list
 (* uN::trailing_zeros at width w *)
 Fixpoint tz_pos (p : positive) : N := match p with xO q => N.succ (tz_pos q) | _ => 0 end.
 Definition tzcnt (w x : N) : N := match x with N0 => w | Npos p => tz_pos p end.
+
+(* L.iter().map(|x| body).collect::<Vec<_>>() with a body that may fault *)
+Fixpoint omapf {A B} (f : A -> outcome B) (l : list A) : outcome (list B) :=
+  match l with
+  | [] => Val []
+  | x :: l' => let! y := f x in let! r := omapf f l' in Val (y :: r)
+  end.
+
+(* v.sort_by_key(|x| x.k): the stable sort (elements with equal keys keep their order) *)
+Fixpoint insert_by {A} (key : A -> N) (x : A) (l : list A) : list A :=
+  match l with
+  | [] => [x]
+  | y :: l' => if key x <=? key y then x :: y :: l' else y :: insert_by key x l'
+  end.
+Definition sort_by_fst {B} (l : list (N * B)) : list (N * B) := fold_right (insert_by fst) [] l.
+Definition sort_by_snd {A} (l : list (A * N)) : list (A * N) := fold_right (insert_by snd) [] l.
